@@ -1,6 +1,7 @@
 package main
 
 import (
+	"sync"
 	"fmt"
 	"strings"
 	"time"
@@ -415,6 +416,11 @@ func taggedUnionVariantMember(t ast.BaseTerm, c ast.Constant) (member, ok bool) 
 // "-explained-by-struct-width" if v would be a member were structs open (extra fields allowed,
 // optional fields may be absent), "-explained-by-map-key-variance+struct-width" if both are needed, else "".
 func explain(t ast.BaseTerm, v ast.Constant) string {
+	c12ExplainMu.Lock()
+	defer c12ExplainMu.Unlock()
+	if ownHasType(t, v) {
+		return "-although-member-by-the-closed-reading-of-the-type"
+	}
 	switch {
 	case relaxedHasType(t, v, true, false):
 		return "-explained-by-map-key-variance"
@@ -433,8 +439,22 @@ func explain(t ast.BaseTerm, v ast.Constant) string {
 }
 
 // relaxedHasType mirrors TypeHandle.HasType with two optional relaxations (used for attribution only).
+// ownHasType is the membership test written here, with no relaxation: closed structs whose optional fields may be absent,
+// covariant maps, tagged unions with their own tags. Where it says "member" and the library says "not a member", the
+// library's membership test is wrong, and that is not one of the recorded inconsistencies of the conformance judgement.
+func ownHasType(t ast.BaseTerm, c ast.Constant) bool {
+	c12ForceOwn = true
+	defer func() { c12ForceOwn = false }()
+	return relaxedHasType(t, c, false, false)
+}
+
+// c12ForceOwn makes relaxedHasType use its own implementation even when no relaxation is asked for (set only by
+// ownHasType; explanations are computed sequentially per violation).
+var c12ForceOwn bool
+var c12ExplainMu sync.Mutex
+
 func relaxedHasType(t ast.BaseTerm, c ast.Constant, anyMapKey, openStruct bool, tagAnyName ...bool) bool {
-	if !anyMapKey && !openStruct && !(len(tagAnyName) > 0 && tagAnyName[0]) {
+	if !c12ForceOwn && !anyMapKey && !openStruct && !(len(tagAnyName) > 0 && tagAnyName[0]) {
 		h, err := symbols.NewSetHandle(t)
 		return err == nil && h.HasType(c)
 	}
